@@ -3,8 +3,10 @@ C04 (growth `c04split`) — the non-redundancy clause PER CHROMOSOME.  Every oth
 `GraphBasedModelConstructor` (one read cluster or one SUB-REGION of a cluster cut by `split_coverage_regions`); the statement
 ("the intron chain differs from that of every other reported novel transcript on the same strand") speaks about the chromosome.
 Model: IsoVerif/Model/ChromosomeModels.lean (`runChromosome`: the constructors of one chromosome task in order, sharing
-`detected_known_isoforms`, the id distributor and — since fix b2b4dd9 — `reported_novel_chains`; round `c04rep`: a dict chain → id of
-the model reported first, so that the reads of a repeated chain stay listed and counted under that id).
+`detected_known_isoforms`, the id distributor and — since fix b2b4dd9 — `reported_novel_chains`; round `c04rep2`: a dict chain → the
+model reported first; a copy of every earlier model that overlaps the reads of a constructor joins its second
+`assign_reads_to_models`, so the reads of an isoform reported earlier are listed and counted under that model whether or not the
+constructor built the chain itself; fix 0c8e711 (local copy renamed) and fix b2b4dd9 (local copy deleted) are kept as variants).
 Property theorems only (helper lemmas: IsoVerif/Lemmas/ChromosomeModels.lean).
 -/
 import IsoVerif.Model.ChromosomeModels
@@ -29,7 +31,7 @@ def ChainsDistinctPerConstructor (s : Store) : Prop := (reportKeys s.models).Nod
 theorem chains_distinct_per_chromosome (next : Nat → Nat) (regs : List RegionIn) (cs' : ChrState) (reps : List Store)
     (h : runChromosomeFixed next regs ChrState.init [] = some (cs', reps))
     (hper : ∀ s ∈ reps, ChainsDistinctPerConstructor s) : ChainsDistinctPerChromosome reps :=
-  (runChromosome_fixed_inv next regs ChrState.init [] cs' reps h (by intro k; simp [ChrState.init, chrKeys, chainKeys])
+  (runChromosome_fixed_inv next regs ChrState.init [] cs' reps h (by intro k; simp [ChrState.init, chrKeys, modelKeys])
       (by intro p hp; simp [ChrState.init] at hp)).2.2
     (by simp [chrKeys]) hper
 
@@ -53,68 +55,69 @@ theorem chains_distinct_per_chromosome_iff (next : Nat → Nat) (regs : List Reg
     is in the output (no chain is lost, see `no_chain_lost`), and nothing else enters the dict. -/
 theorem reported_set_is_reported_keys (next : Nat → Nat) (regs : List RegionIn) (cs' : ChrState) (reps : List Store)
     (h : runChromosomeFixed next regs ChrState.init [] = some (cs', reps)) :
-    ∀ k, k ∈ chainKeys cs'.reported ↔ k ∈ chrKeys reps :=
-  (runChromosome_fixed_inv next regs ChrState.init [] cs' reps h (by intro k; simp [ChrState.init, chrKeys, chainKeys])
+    ∀ k, k ∈ modelKeys cs'.reported ↔ k ∈ chrKeys reps :=
+  (runChromosome_fixed_inv next regs ChrState.init [] cs' reps h (by intro k; simp [ChrState.init, chrKeys, modelKeys])
       (by intro p hp; simp [ChrState.init] at hp)).1
 
-/-- **reported_ids_name_reported_models** (round `c04rep`).  Every VALUE of the dict is the transcript id of a novel spliced
-    model that IS in the output of the chromosome, with exactly that (strand, chain): the id a later constructor lists and
-    counts the reads of a repeated chain under is the id of the model `transcript_models.gtf` shows for the chain. -/
+/-- **reported_ids_name_reported_models.** Every VALUE of the dict is a novel spliced model that IS in the output of the
+    chromosome (same id, same exons, same strand; the joiner may have rewritten the gene id), stored under its own
+    (strand, chain): the model a later constructor assigns its reads to — and lists and counts them under — is the model
+    `transcript_models.gtf` shows for the chain. -/
 theorem reported_ids_name_reported_models (next : Nat → Nat) (regs : List RegionIn) (cs' : ChrState) (reps : List Store)
     (h : runChromosomeFixed next regs ChrState.init [] = some (cs', reps)) :
-    ∀ p ∈ cs'.reported, ∃ s ∈ reps, ∃ m ∈ s.models, isSplicedNovel m = true ∧ chainKey m = p.1 ∧ m.tid = p.2 :=
-  (runChromosome_fixed_inv next regs ChrState.init [] cs' reps h (by intro k; simp [ChrState.init, chrKeys, chainKeys])
+    ∀ p ∈ cs'.reported, ∃ s ∈ reps, ∃ m ∈ s.models, isSplicedNovel m = true ∧ chainKey m = p.1 ∧ SameModel m p.2 :=
+  (runChromosome_fixed_inv next regs ChrState.init [] cs' reps h (by intro k; simp [ChrState.init, chrKeys, modelKeys])
       (by intro p hp; simp [ChrState.init] at hp)).2.1
 
 /-- **no_chain_lost.** A model is withheld only if its key is in the dict handed over by the earlier constructors;
     every other novel spliced model that passed `filter_transcripts` is reported by this constructor, with its chain. -/
-theorem no_chain_lost (reported rep' : ChainMap) (r : RegionIn) (s5 s : Store)
-    (h : regionTail .keepReads reported r s5 = some (s, rep')) :
-    ∀ m ∈ s5.models, isSplicedNovel m = true → chainKey m ∈ chainKeys reported ∨ chainKey m ∈ reportKeys s.models := by
+theorem no_chain_lost (reported rep' : ModelMap) (r : RegionIn) (s5 s : Store)
+    (h : regionTail .joinEarlier reported r s5 = some (s, rep')) :
+    ∀ m ∈ s5.models, isSplicedNovel m = true → chainKey m ∈ modelKeys reported ∨ chainKey m ∈ reportKeys s.models := by
   intro m hm hsn
   obtain ⟨hk, _, _⟩ := regionTail_fixed_spec h
-  by_cases hin : chainKey m ∈ chainKeys reported
+  by_cases hin : chainKey m ∈ modelKeys reported
   · exact Or.inl hin
   · refine Or.inr ?_
     rw [hk]
     exact mem_reportKeys.2 ⟨m, List.mem_filter.2 ⟨hm, by simp [keepModel, hsn, hin]⟩, hsn, rfl⟩
 
-/-- **unsplit_region_unchanged.** Safety of both repairs: a constructor none of whose novel spliced models repeats a chain
-    reported by an EARLIER constructor dumps exactly the storage the code before fix b2b4dd9 dumps (same models, same
-    `transcript_model_reads` bookkeeping); only the class-level dict differs.  Read clusters are disjoint intervals and every
-    intron of a model lies inside its cluster, so this covers every cluster that is not cut. -/
+/-- **unsplit_region_unchanged.** Safety of the repairs: a constructor none of whose novel spliced models repeats a chain
+    reported by an EARLIER constructor, and whose reads no earlier novel model overlaps, dumps exactly the storage the code
+    before fix b2b4dd9 dumps (same models, same `transcript_model_reads` bookkeeping); only the class-level dict differs.
+    Read clusters are disjoint intervals and every model lies inside its cluster, so this covers every cluster that is not cut. -/
 theorem unsplit_region_unchanged (next : Nat → Nat) (cs : ChrState) (r : RegionIn) (st2 : FLState) (s5 : Store)
     (hh : regionHead next cs r = some (st2, s5))
-    (hfresh : ∀ m ∈ s5.models, isSplicedNovel m = true → chainKey m ∉ chainKeys cs.reported) :
-    (processRegion .keepReads next cs r).map (·.2) = (processRegion .none next cs r).map (·.2) := by
-  have hall : ∀ m ∈ s5.models, keepModel (chainKeys cs.reported) m = true := by
+    (hfresh : ∀ m ∈ s5.models, isSplicedNovel m = true → chainKey m ∉ modelKeys cs.reported)
+    (hno : earlierModels cs.reported r.span = some []) :
+    (processRegion .joinEarlier next cs r).map (·.2) = (processRegion .none next cs r).map (·.2) := by
+  have hall : ∀ m ∈ s5.models, keepModel (modelKeys cs.reported) m = true := by
     intro m hm
     unfold keepModel
     cases hsn : isSplicedNovel m with
     | false => simp
     | true => simp [hfresh m hm hsn]
-  have hf : s5.models.filter (keepModel (chainKeys cs.reported)) = s5.models := List.filter_eq_self.2 hall
-  have hd : s5.dropKeep cs.reported = some (s5, s5.models, mapUpdate cs.reported s5.models) := by
-    unfold Store.dropKeep
-    rw [dropLoopR_all_kept _ _ _ _ _ hall]
-    have htrue : ∀ l : List TModel, l.filter (fun _ => true) = l := fun l => List.filter_eq_self.2 (by simp)
-    simp [finalModels, List.filter_map, Function.comp_def, List.map_map, htrue]
+  have hd : s5.dropJoin cs.reported r.span = some (s5, s5.models, mapUpdateM cs.reported s5.models) := by
+    unfold Store.dropJoin Store.dropReported
+    rw [chainKeys_idMapOf, dropLoop_all_kept _ _ _ _ hall, hno]
+    simp
   simp only [processRegion, hh, regionTail, hd, Option.map_some, assignReads_models]
 
 /-- **first_region_unchanged.** In particular the first constructor of a chromosome (empty dict) is never affected. -/
 theorem first_region_unchanged (next : Nat → Nat) (det : List String) (idv : Nat) (r : RegionIn) :
-    (processRegion .keepReads next ⟨det, idv, []⟩ r).map (·.2) = (processRegion .none next ⟨det, idv, []⟩ r).map (·.2) := by
+    (processRegion .joinEarlier next ⟨det, idv, []⟩ r).map (·.2) = (processRegion .none next ⟨det, idv, []⟩ r).map (·.2) := by
   cases hh : regionHead next ⟨det, idv, []⟩ r with
   | none => simp [processRegion, hh]
   | some p =>
     obtain ⟨st2, s5⟩ := p
-    exact unsplit_region_unchanged next _ r st2 s5 hh (by intro m _ _; simp [chainKeys])
+    refine unsplit_region_unchanged next _ r st2 s5 hh (by intro m _ _; simp [modelKeys]) ?_
+    cases r.span <;> rfl
 
-/-- **same_models_as_b2b4dd9** (round `c04rep`).  The repair of the repair changes NO model and no entry key: on every record on
-    which both run through, the current code dumps the model list fix b2b4dd9 dumps and hands on the same dict — what differs
-    is only `transcript_read_ids` / `internal_counter` / `read_assignment_counts`, i.e. `transcript_model_reads` and the counts. -/
+/-- **same_models_as_b2b4dd9 / same_models_as_0c8e711.** The follow-up repairs change NO model and no dict entry: on every
+    record on which they run through, the current code dumps the model list fix b2b4dd9 and fix 0c8e711 dump and hands on the
+    same dict — what differs is `transcript_read_ids` / counters, i.e. `transcript_model_reads` and the counts. -/
 theorem same_models_as_b2b4dd9 (next : Nat → Nat) (cs cs1 cs2 : ChrState) (r : RegionIn) (s1 s2 : Store)
-    (h1 : processRegion .keepReads next cs r = some (cs1, s1)) (h2 : processRegion .dropOnly next cs r = some (cs2, s2)) :
+    (h1 : processRegion .joinEarlier next cs r = some (cs1, s1)) (h2 : processRegion .dropOnly next cs r = some (cs2, s2)) :
     cs1 = cs2 ∧ s1.models = s2.models := by
   unfold processRegion at h1 h2
   cases hh : regionHead next cs r with
@@ -135,7 +138,114 @@ theorem same_models_as_b2b4dd9 (next : Nat → Nat) (cs cs1 cs2 : ChrState) (r :
         obtain ⟨hm2, hr2⟩ := regionTail_b2b4_spec htb
         exact ⟨by rw [hr1, hr2], by rw [hm1, hm2]⟩
 
-/-! ### the current code: the reads of a repeated chain (round `c04rep`) -/
+theorem same_models_as_0c8e711 (next : Nat → Nat) (cs cs1 cs2 : ChrState) (r : RegionIn) (s1 s2 : Store)
+    (h1 : processRegion .joinEarlier next cs r = some (cs1, s1)) (h2 : processRegion .renameCopy next cs r = some (cs2, s2)) :
+    cs1 = cs2 ∧ s1.models = s2.models := by
+  unfold processRegion at h1 h2
+  cases hh : regionHead next cs r with
+  | none => simp [hh] at h1
+  | some p =>
+    obtain ⟨st2, s5⟩ := p
+    simp only [hh] at h1 h2
+    split at h1
+    · simp at h1
+    · rename_i sa ra hta
+      split at h2
+      · simp at h2
+      · rename_i sb rb htb
+        simp only [Option.some.injEq, Prod.mk.injEq] at h1 h2
+        obtain ⟨rfl, rfl⟩ := h1
+        obtain ⟨rfl, rfl⟩ := h2
+        obtain ⟨_, _, hm1, hr1⟩ := regionTail_fixed_spec hta
+        obtain ⟨hm2, hr2⟩ := regionTail_0c8e_spec htb
+        exact ⟨by rw [hr1, hr2], by rw [hm1, hm2]⟩
+
+/-! ### the current code: the reads of an isoform reported by an earlier constructor (round `c04rep2`) -/
+
+/-- **repeated_chain_keeps_reads** (extended in round `c04rep2` to constructors that build NO local copy).  Let `fm` be a model an
+    earlier constructor reported (a value of the dict) that overlaps the span of the reads this constructor processes.  Then —
+    for ANY storage that passed `filter_transcripts`, in particular the EMPTY one of a sub-region that holds fewer reads of the
+    isoform than the novel cut-off — `fm` is in the storage of the second `assign_reads_to_models`, and every read that is
+    not assigned at that point (its local copy was deleted, or no copy was ever built) and that the assigner finds consistent
+    with `fm` is printed in `transcript_model_reads` under `fm`'s id, whatever the other assigner answers are.  Which reads
+    are consistent is the assigner's verdict against the geometry of the model that IS in the output — exactly the comparison
+    a cluster that is not cut makes (`reported_ids_name_reported_models`: `fm` is that model). -/
+theorem repeated_chain_keeps_reads (s5 s6 : Store) (reported rep' : ModelMap) (span : Int × Int) (final : List TModel)
+    (h : s5.dropJoin reported (some span) = some (s6, final, rep'))
+    (k : ChainKey) (fm : TModel) (hmem : (k, fm) ∈ reported) (a b : Int) (ha : fm.startPos = some a) (hb : fm.endPos = some b)
+    (hov : a ≤ span.2 ∧ span.1 ≤ b)
+    (pre post : List AssignIn) (x : AssignIn) (hpre : ∀ y ∈ pre, y.read ≠ x.read)
+    (hun : ¬ cnt s6.rcount x.read > 0) (hc : x.consistent = true) (ht : fm.tid ∈ x.matched) :
+    fm ∈ s6.models ∧ (x.read, fm.tid) ∈ (s6.assignReads (pre ++ x :: post)).dumpR2T := by
+  obtain ⟨_, _, em, s', he, hms, _⟩ := dropJoin_spec h
+  have hin : fm ∈ em := (mem_overlapping he).2 ⟨k, a, b, hmem, ha, hb, hov.1, hov.2⟩
+  have hfm : fm ∈ s6.models := by rw [hms]; exact List.mem_append_right _ hin
+  refine ⟨hfm, assignReads_lists s6 pre post x fm.tid ?_ hpre hun hc ht⟩
+  intro hnil
+  rw [hnil] at hfm
+  simp at hfm
+
+/-- **deleted_copy_frees_its_reads.** … and the reads of a local copy that is withheld ARE unassigned at that point when they
+    were listed once: `delete_from_storage` decrements `read_assignment_counts` of each read of the deleted model (the
+    deletion loop is the loop of fix b2b4dd9; the storage handed to the second assignment has its counters). -/
+theorem deleted_copy_frees_its_reads (s5 s6 : Store) (reported rep' : ModelMap) (span : Option (Int × Int)) (final : List TModel)
+    (h : s5.dropJoin reported span = some (s6, final, rep')) :
+    ∃ s', s5.dropReported (modelKeys reported) = some (s', keyUnion (modelKeys reported) (reportKeys final)) ∧
+      s6.rcount = s'.rcount ∧ s6.readIds = s'.readIds ∧ s6.counter = s'.counter := by
+  obtain ⟨_, _, em, s', _, _, hd, _, h1, h2, h3⟩ := dropJoin_spec h
+  exact ⟨s', hd, h3, h1, h2⟩
+
+/-- **drop_keeps_bookkeeping.** The step deletes through `delete_from_storage`, so the invariants behind the
+    `transcript_model_reads` clauses survive it: lines name models of the storage (`R2TInv`), counters stay below the read
+    lists (`CounterLe`), the dumped models are a sub-list, and a dumped model keeps its counter and its reads. -/
+theorem drop_keeps_bookkeeping (s5 s6 : Store) (reported rep' : ModelMap) (span : Option (Int × Int)) (final : List TModel)
+    (h : s5.dropJoin reported span = some (s6, final, rep')) :
+    final.Sublist s5.models ∧ (R2TInv s5 → R2TInv s6) ∧ (CounterLe s5 → CounterLe s6) ∧
+    ((ids s5.models).Nodup → ∀ m ∈ final,
+        cnt s6.counter m.tid = cnt s5.counter m.tid ∧ readsIn s6.readIds m.tid = readsIn s5.readIds m.tid) := by
+  obtain ⟨hf, _, em, s', _, hms, hd, hsm, h1, h2, _⟩ := dropJoin_spec h
+  obtain ⟨hm, _, D, hcov, hsh, hnD⟩ := dropReported_spec hd
+  refine ⟨by rw [hf]; exact List.filter_sublist, ?_, ?_, ?_⟩
+  · intro hinv q hq hne
+    rw [h1] at hq
+    rcases hsh.entries q hq with e1 | ⟨e1, e2⟩
+    · exact absurd e1 hne
+    · have := hinv q e1 hne
+      simp only [ids, List.mem_map] at this ⊢
+      obtain ⟨m, hmm, hmt⟩ := this
+      rcases hcov m hmm with h3 | h3
+      · exact ⟨m, by rw [hms, ← hsm]; exact List.mem_append_left _ h3, hmt⟩
+      · rw [hmt] at h3; exact absurd h3 e2
+  · intro hc t
+    have := hsh.counterLe hc t
+    rw [h1, h2]; exact this
+  · intro hnd m hmem
+    have := hnD hnd m (by rw [hsm]; exact hmem)
+    rw [h1, h2, hsh.counter, hsh.reads]
+    simp [this]
+
+/-- **supporting_read_after_drop.** The clause "≥ 1 read in `transcript_model_reads`" through the current tail of `process()`:
+    a non-known model that is dumped had at least `min_novel_count ≥ 1` reads counted when `filter_transcripts` kept it, and
+    neither the step nor the second `assign_reads_to_models` takes a read away from a dumped model. -/
+theorem supporting_read_after_drop (s5 s6 : Store) (reported rep' : ModelMap) (span : Option (Int × Int)) (final : List TModel)
+    (ins : List AssignIn) (minCount : Int) (hpos : 1 ≤ minCount) (hnd : (ids s5.models).Nodup) (hle : CounterLe s5)
+    (hcount : ∀ m ∈ s5.models, m.ttype ≠ .known → minCount ≤ cnt s5.counter m.tid)
+    (h : s5.dropJoin reported span = some (s6, final, rep')) :
+    ∀ m ∈ final, m.ttype ≠ .known → ∃ r, (r, m.tid) ∈ (s6.assignReads ins).dumpR2T := by
+  obtain ⟨hsub, _, hc, hkeep⟩ := drop_keeps_bookkeeping s5 s6 reported rep' span final h
+  have hg := assignReads_grow s6 ins
+  intro m hm hnovel
+  have h1 := (hkeep hnd m hm).1
+  have h2 := hcount m (hsub.subset hm) hnovel
+  have hle2 := hc hle m.tid
+  have hlen' : 1 ≤ (readsIn (s6.assignReads ins).readIds m.tid).length := by
+    have := (hg.reads m.tid).length_le
+    omega
+  cases hr : readsIn (s6.assignReads ins).readIds m.tid with
+  | nil => rw [hr] at hlen'; simp at hlen'
+  | cons r t => exact ⟨r, mem_dump_of_reads (by rw [hr]; simp)⟩
+
+/-! ### the step of fix 0c8e711 (variant `.renameCopy`, `Store.dropKeep`): what it achieved for constructors that build a copy -/
 
 /-- **repeated_chain_takes_first_id.** The renaming step itself: the whole read list and the counter of the local copy move to
     the id of the model reported first, and `read_assignment_counts` is not touched (`delete_from_storage`, the step of fix
@@ -147,13 +257,13 @@ theorem repeated_chain_takes_first_id (s s' : Store) (old first : String) (h : s
   · rw [h2]; simp
   · rw [h1]; simp
 
-/-- **repeated_chain_keeps_reads** (round `c04rep`, the clause at the level of one constructor, all inputs).  A novel spliced model
+/-- **repeated_chain_keeps_reads_0c8e711** (round `c04rep`; the step of fix 0c8e711, one constructor, all inputs).  A novel spliced model
     `m` that passed `filter_transcripts` and whose (strand, chain) the dict maps to `first` — the id of the model an earlier
     constructor reported: after the step `first` carries exactly `m`'s counter and `m`'s read list, and after the second
     `assign_reads_to_models` (ANY assigner answers) every one of those reads is printed in `transcript_model_reads` under `first`.
     Hypotheses: the per-constructor clause (no chain twice in this storage) and what the shared, monotone id distributor gives
     (C17): distinct ids in the storage, the ids in the dict are not among them, different chains of the dict have different ids. -/
-theorem repeated_chain_keeps_reads (s5 s6 : Store) (reported rep' : ChainMap) (final : List TModel)
+theorem repeated_chain_keeps_reads_0c8e711 (s5 s6 : Store) (reported rep' : ChainMap) (final : List TModel)
     (hper : ChainsDistinctPerConstructor s5) (hnd : (ids s5.models).Nodup)
     (hfirst : ∀ p ∈ reported, p.2 ∉ ids s5.models)
     (hinj : ∀ p ∈ reported, ∀ q ∈ reported, p.2 = q.2 → p.1 = q.1)
@@ -176,11 +286,11 @@ theorem repeated_chain_keeps_reads (s5 s6 : Store) (reported rep' : ChainMap) (f
     show r ∈ readsIn s1.readIds first
     rw [hmv.2]; exact hr
 
-/-- **drop_keeps_read_counts.** Under the per-constructor clause (the constructor holds no (strand, chain) twice) the current
+/-- **drop_keeps_read_counts_0c8e711.** Under the per-constructor clause (the constructor holds no (strand, chain) twice) the current
     `drop_novel_chains_reported_elsewhere` leaves `read_assignment_counts` exactly as it found it — for ANY dict handed over:
     a read that was listed under a model that passed `filter_transcripts` is not turned into a `*` line
     (`dumpR2T` prints `*` for the reads whose count is 0) and is not offered to the assigner again. -/
-theorem drop_keeps_read_counts (s5 s6 : Store) (reported rep' : ChainMap) (final : List TModel)
+theorem drop_keeps_read_counts_0c8e711 (s5 s6 : Store) (reported rep' : ChainMap) (final : List TModel)
     (hper : ChainsDistinctPerConstructor s5) (h : s5.dropKeep reported = some (s6, final, rep')) :
     s6.rcount = s5.rcount := by
   unfold Store.dropKeep at h
@@ -191,55 +301,6 @@ theorem drop_keeps_read_counts (s5 s6 : Store) (reported rep' : ChainMap) (final
     have hrc := dropLoopR_rcount reported s5.models s5 [] [] s1 kept hl hper (by simp)
     obtain ⟨rfl, _, _⟩ := h
     exact hrc
-
-/-- **drop_keeps_bookkeeping.** The step keeps `internal_counter[t] ≤ |transcript_read_ids[t]|`, dumps a sub-list of the
-    models, and a model that is dumped keeps its counter and its read list — provided the ids handed over in the dict are not
-    ids of this constructor's storage (the distributor is shared and monotone: C17) and the ids of the storage are distinct. -/
-theorem drop_keeps_bookkeeping (s5 s6 : Store) (reported rep' : ChainMap) (final : List TModel)
-    (h : s5.dropKeep reported = some (s6, final, rep')) :
-    final.Sublist s5.models ∧ (CounterLe s5 → CounterLe s6) ∧
-    ((ids s5.models).Nodup → (∀ p ∈ reported, p.2 ∉ ids s5.models) → ∀ m ∈ final,
-        cnt s6.counter m.tid = cnt s5.counter m.tid ∧ readsIn s6.readIds m.tid = readsIn s5.readIds m.tid) := by
-  obtain ⟨hf, _⟩ := dropKeep_spec h
-  unfold Store.dropKeep at h
-  split at h
-  · simp at h
-  · rename_i s1 kept hl
-    simp only [Option.some.injEq, Prod.mk.injEq] at h
-    have hcl := dropLoopR_counterLe reported s5.models s5 [] [] s1 kept hl
-    have hfr := fun tid h1 h2 => dropLoopR_frame reported tid h1 s5.models s5 [] [] s1 kept hl h2
-    obtain ⟨rfl, _, _⟩ := h
-    refine ⟨by rw [hf]; exact List.filter_sublist, hcl, ?_⟩
-    intro hnd hfirst m hm
-    rw [hf, List.mem_filter] at hm
-    refine hfr m.tid ?_ ?_
-    · intro p hp heq
-      exact hfirst p hp (by rw [heq]; exact List.mem_map.2 ⟨m, hm.1, rfl⟩)
-    · intro x hx hxt
-      rw [eq_of_nodup_ids hnd hx hm.1 hxt]
-      exact hm.2
-
-/-- **supporting_read_after_drop.** The clause "≥ 1 read in `transcript_model_reads`" through the current tail of `process()`:
-    a non-known model that is dumped had at least `min_novel_count ≥ 1` reads counted when `filter_transcripts` kept it, and
-    neither the step nor the second `assign_reads_to_models` takes a read away from a dumped model. -/
-theorem supporting_read_after_drop (s5 s6 : Store) (reported rep' : ChainMap) (final : List TModel) (ins : List AssignIn)
-    (minCount : Int) (hpos : 1 ≤ minCount) (hnd : (ids s5.models).Nodup) (hle : CounterLe s5)
-    (hfirst : ∀ p ∈ reported, p.2 ∉ ids s5.models)
-    (hcount : ∀ m ∈ s5.models, m.ttype ≠ .known → minCount ≤ cnt s5.counter m.tid)
-    (h : s5.dropKeep reported = some (s6, final, rep')) :
-    ∀ m ∈ final, m.ttype ≠ .known → ∃ r, (r, m.tid) ∈ (s6.assignReads ins).dumpR2T := by
-  obtain ⟨hsub, hc, hkeep⟩ := drop_keeps_bookkeeping s5 s6 reported rep' final h
-  have hg := assignReads_grow s6 ins
-  intro m hm hnovel
-  have h1 := (hkeep hnd hfirst m hm).1
-  have h2 := hcount m (hsub.subset hm) hnovel
-  have hle2 := hc hle m.tid
-  have hlen' : 1 ≤ (readsIn (s6.assignReads ins).readIds m.tid).length := by
-    have := (hg.reads m.tid).length_le
-    omega
-  cases hr : readsIn (s6.assignReads ins).readIds m.tid with
-  | nil => rw [hr] at hlen'; simp at hlen'
-  | cons r t => exact ⟨r, mem_dump_of_reads (by rw [hr]; simp)⟩
 
 /-! ### concrete inputs: the witness of the defect and the non-vacuity examples -/
 
@@ -300,19 +361,50 @@ theorem chains_distinct_per_chromosome_orig_false :
     rw [hk] at this
     simp at this
 
-/-- non-vacuity of `chains_distinct_per_chromosome` and regression of both fixes: on the same input the current code reports
-    the chain once, the dict names the first model, the second sub-region dumps no model and hands the id counter on -/
-example : (runChromosomeFixed (· + 1) splitRegions ChrState.init []).map (fun r =>
-        (chrKeys r.2, r.1.reported, r.1.idv, r.2.map (fun s => (reportKeys s.models).length)))
-      = some ([(Strand.plus, [(50, 90), (100, 200)])], [((Strand.plus, [(50, 90), (100, 200)]), "transcript1.chr1.nnic")], 4, [1, 0]) := by
+/-- the second sub-region as the CURRENT code sees it: its reads span 30..400, and the assigner — asked about the copy of the model
+    reported first — finds `r4 r5 r6` consistent with it -/
+def exRegionB : RegionIn :=
+  { exRegion [exPathB] with
+    ins2 := [⟨"r4", true, ["transcript1.chr1.nnic"]⟩, ⟨"r5", true, ["transcript1.chr1.nnic"]⟩, ⟨"r6", true, ["transcript1.chr1.nnic"]⟩],
+    span := some (30, 400) }
+
+def splitRegions2 : List RegionIn := [exRegion [exPath], exRegionB]
+
+/-- a second sub-region that holds only TWO reads of the isoform: below `min_novel_count`, no full-length path becomes a model -/
+def exRegionFew : RegionIn :=
+  { exRegion [] with
+    ins2 := [⟨"r4", true, ["transcript1.chr1.nnic"]⟩, ⟨"r5", true, ["transcript1.chr1.nnic"]⟩], span := some (30, 400) }
+
+def fewRegions : List RegionIn := [exRegion [exPath], exRegionFew]
+
+/-- non-vacuity of `chains_distinct_per_chromosome` and regression of the fixes: the current code reports the chain once, the
+    dict holds the first model, the second sub-region dumps no model and hands the id counter on -/
+example : (runChromosomeFixed (· + 1) splitRegions2 ChrState.init []).map (fun r =>
+        (chrKeys r.2, r.1.idv, r.2.map (fun s => (reportKeys s.models).length)))
+      = some ([(Strand.plus, [(50, 90), (100, 200)])], 4, [1, 0]) ∧
+    (runChromosomeFixed (· + 1) splitRegions2 ChrState.init []).map (fun r => r.1.reported.map (fun p => p.1))
+      = some [(Strand.plus, [(50, 90), (100, 200)])] ∧
+    (runChromosomeFixed (· + 1) splitRegions2 ChrState.init []).map (fun r => r.1.reported.map (fun p => (p.2.tid, p.2.exons)))
+      = some [("transcript1.chr1.nnic", [(10, 49), (91, 99), (201, 400)])] := by
   decide +kernel
 
-/-- … and the three reads of the second sub-region are listed under the id of the model reported first (round `c04rep`) -/
-example : (runChromosomeFixed (· + 1) splitRegions ChrState.init []).map (fun r =>
+/-- … and the three reads of the second sub-region are listed under the id of the model reported first -/
+example : (runChromosomeFixed (· + 1) splitRegions2 ChrState.init []).map (fun r =>
         r.2.map (fun s => (s.models.map (·.tid), s.dumpR2T)))
       = some [(["transcript1.chr1.nnic"], [("r1", "transcript1.chr1.nnic"), ("r2", "transcript1.chr1.nnic"), ("r3", "transcript1.chr1.nnic"),
                                          ("r4", "*"), ("r5", "*"), ("r6", "*")]),
               ([], [("r4", "transcript1.chr1.nnic"), ("r5", "transcript1.chr1.nnic"), ("r6", "transcript1.chr1.nnic")])] := by
+  decide +kernel
+
+/-- when the assigner finds the reads of the later sub-region INCONSISTENT with the model reported first (another polyA end:
+    the '-' locus of the audit) they are `*`, as in a cluster that is not cut — fix 0c8e711 counted them for the first model -/
+example : ((runChromosomeFixed (· + 1) splitRegions ChrState.init []).map (fun r => r.2.map (fun s => s.dumpR2T)),
+           (runChromosome0c8e (· + 1) splitRegions ChrState.init []).map (fun r => r.2.map (fun s => s.dumpR2T)))
+      = (some [[("r1", "transcript1.chr1.nnic"), ("r2", "transcript1.chr1.nnic"), ("r3", "transcript1.chr1.nnic"),
+                ("r4", "*"), ("r5", "*"), ("r6", "*")], [("r4", "*"), ("r5", "*"), ("r6", "*")]],
+         some [[("r1", "transcript1.chr1.nnic"), ("r2", "transcript1.chr1.nnic"), ("r3", "transcript1.chr1.nnic"),
+                ("r4", "*"), ("r5", "*"), ("r6", "*")],
+               [("r4", "transcript1.chr1.nnic"), ("r5", "transcript1.chr1.nnic"), ("r6", "transcript1.chr1.nnic")]]) := by
   decide +kernel
 
 /-- non-vacuity of `unsplit_region_unchanged`: a second region with ANOTHER chain is reported as before -/
@@ -364,16 +456,52 @@ theorem reads_keep_their_chain_b2b4dd9_false : ¬ ReadsKeepTheirChain runChromos
   unfold ReadsKeepTheirChain
   decide +kernel
 
-/-- … and holds of the current code on the same input: all six reads are listed under the chain, as before both fixes, now
-    under ONE id -/
+/-- … and holds of the current code when the assigner accepts the reads for the model reported first: all six reads are
+    listed under the chain, as before the fixes, now under ONE id -/
 theorem reads_keep_their_chain_witness_input :
-    ReadsKeepTheirChain runChromosomeFixed (· + 1) splitRegions ∧
-    (runChromosomeFixed (· + 1) splitRegions ChrState.init []).map (fun r => (chrReadChains r.2).map (·.1))
+    ReadsKeepTheirChain runChromosomeFixed (· + 1) splitRegions2 ∧
+    (runChromosomeFixed (· + 1) splitRegions2 ChrState.init []).map (fun r => (chrReadChains r.2).map (·.1))
       = some ["r1", "r2", "r3", "r4", "r5", "r6"] := by
   unfold ReadsKeepTheirChain
   decide +kernel
 
-/-- non-vacuity of `drop_keeps_read_counts` / `drop_keeps_bookkeeping` / `supporting_read_after_drop`: a storage with the
+/-- **reads_lost_0c8e711_witness** (round `c04rep2`).  Fix 0c8e711 on `fewRegions`: the second sub-region holds two reads of the
+    isoform — fewer than the novel cut-off, so no local copy exists that could take the first model's id; its storage is EMPTY,
+    `assign_reads_to_models` zeroes every read without consulting the assigner, and `r4 r5` are printed `*` although
+    `transcript1.chr1.nnic` IS their isoform (real pipeline, `witness_dataset("split_region_few_reads")`: 10 + 2 reads, 2 lines
+    `*`, `__no_feature 2`; the same 12 reads in a cluster that is not cut: 12.00). -/
+theorem reads_lost_0c8e711_witness :
+    (runChromosome0c8e (· + 1) fewRegions ChrState.init []).map (fun r => (r.2.map (fun s => s.dumpR2T), chrReadChains r.2))
+      = some ([[("r1", "transcript1.chr1.nnic"), ("r2", "transcript1.chr1.nnic"), ("r3", "transcript1.chr1.nnic"),
+                ("r4", "*"), ("r5", "*"), ("r6", "*")],
+               [("r4", "*"), ("r5", "*")]],
+              [("r1", (Strand.plus, [(50, 90), (100, 200)])), ("r2", (Strand.plus, [(50, 90), (100, 200)])),
+               ("r3", (Strand.plus, [(50, 90), (100, 200)]))]) := by
+  decide +kernel
+
+/-- … the current code on the same input (non-vacuity of `repeated_chain_keeps_reads` for a constructor WITHOUT a local copy):
+    the copy of the first model joins the empty storage, the assigner is consulted, both reads are listed under its id -/
+theorem reads_kept_without_local_copy_witness :
+    (runChromosomeFixed (· + 1) fewRegions ChrState.init []).map (fun r => (r.2.map (fun s => (s.models.map (·.tid), s.dumpR2T)), chrReadChains r.2))
+      = some ([(["transcript1.chr1.nnic"], [("r1", "transcript1.chr1.nnic"), ("r2", "transcript1.chr1.nnic"), ("r3", "transcript1.chr1.nnic"),
+                ("r4", "*"), ("r5", "*"), ("r6", "*")]),
+               ([], [("r4", "transcript1.chr1.nnic"), ("r5", "transcript1.chr1.nnic")])],
+              [("r1", (Strand.plus, [(50, 90), (100, 200)])), ("r2", (Strand.plus, [(50, 90), (100, 200)])),
+               ("r3", (Strand.plus, [(50, 90), (100, 200)])), ("r4", (Strand.plus, [(50, 90), (100, 200)])),
+               ("r5", (Strand.plus, [(50, 90), (100, 200)]))]) := by
+  decide +kernel
+
+/-- the hypotheses of `repeated_chain_keeps_reads` on that input: the dict entry, the overlap, an empty storage, an unassigned read -/
+def exFirstModel : TModel :=
+  ⟨"chr1", .plus, "transcript1.chr1.nnic", "novel_gene_chr1_2", [(10, 49), (91, 99), (201, 400)], .novel_not_in_catalog, [(50, 90), (100, 200)]⟩
+
+example : (Store.empty.dropJoin [((Strand.plus, [(50, 90), (100, 200)]), exFirstModel)] (some (30, 400))).map
+        (fun r => (r.1.models.map (·.tid), r.2.1.map (·.tid), cnt r.1.rcount "r4"))
+      = some (["transcript1.chr1.nnic"], [], 0) ∧
+    exFirstModel.startPos = some 10 ∧ exFirstModel.endPos = some 400 := by
+  decide +kernel
+
+/-- non-vacuity of `drop_keeps_read_counts_0c8e711` / `repeated_chain_keeps_reads_0c8e711` (the step of fix 0c8e711): a storage with the
     repeated chain (model `a`, reads r4 r5) and a fresh model (`b`, read r7); the dict names `transcript1.chr1.nnic` -/
 def exModelA : TModel :=
   ⟨"chr1", .plus, "a", "g", [(1, 49), (91, 99), (201, 300)], .novel_not_in_catalog, [(50, 90), (100, 200)]⟩
@@ -398,7 +526,7 @@ example : (exStoreRep.dropKeep [((Strand.plus, [(50, 90), (100, 200)]), "transcr
       = some [((Strand.plus, [(50, 90), (100, 200)]), "transcript1.chr1.nnic"), ((Strand.plus, [(50, 90)]), "b")] := by
   decide +kernel
 
-/-- non-vacuity of `repeated_chain_keeps_reads`: `exModelA` repeats the chain of `transcript1.chr1.nnic`; its reads r4 r5 are
+/-- non-vacuity of `repeated_chain_keeps_reads_0c8e711`: `exModelA` repeats the chain of `transcript1.chr1.nnic`; its reads r4 r5 are
     printed under that id -/
 example : exModelA ∈ exStoreRep.models ∧ isSplicedNovel exModelA = true ∧
     amGet? [((Strand.plus, [(50, 90), (100, 200)]), "transcript1.chr1.nnic")] (chainKey exModelA) = some "transcript1.chr1.nnic" ∧
